@@ -415,6 +415,7 @@ func checkC09(c *Ctx) {
 	checkC09SearchDown(c)
 	checkC09NoSaveAfterGrowth(c)
 	checkC09IsearchRestores(c)
+	checkC09SavedPosition(c)
 }
 
 // ---- C09.line-state-key: the saved states of a history line are kept under a key that survives the growth of the history
